@@ -231,9 +231,9 @@ def make_cases(rng, n_schemas: int, per_schema: int, depth: int = 3, foreign: in
     from mashumaro.codecs.basic import BasicDecoder, BasicEncoder
     cases = []
     for si in range(n_schemas):
-        sg = gen.SchemaGen(rng, gen.GenOpts(depth=depth, coq_only=True, named=False))
+        sg = gen.SchemaGen(rng, gen.GenOpts(depth=depth, coq_only=True, named=False, mixin=rng.random() < 0.4))
         sg.tag = f"s{si}_"
-        t = sg.gen_type()
+        t = sg.dataclass_type(depth - 1) if rng.random() < 0.35 else sg.gen_type()
         if t.kind == "none":
             t = gen.T("opt", [gen.T("int")])
         fam = sg.fam
@@ -242,8 +242,15 @@ def make_cases(rng, n_schemas: int, per_schema: int, depth: int = 3, foreign: in
         enc = BasicEncoder(ty)
         dec = BasicDecoder(ty)
         vg = gen.ValueGen(rng, fam)
+        # a mixin dataclass at the top: the same model must also describe to_dict / from_dict
+        mixin_top = t.kind == "data" and fam.get(t.name).mixin
         for _ in range(per_schema):
             v = vg.value(t)
+            if mixin_top:
+                try:
+                    cases.append(dict(fam=fam, t=t, ns=ns, kind="enc", value=v, out=("ok", v.to_dict()), entry="mixin"))
+                except Exception as e:
+                    cases.append(dict(fam=fam, t=t, ns=ns, kind="enc", value=v, out=("exc", type(e).__name__), entry="mixin"))
             try:
                 w = enc.encode(v)
             except Exception as e:  # a conforming value must serialize
@@ -259,6 +266,13 @@ def make_cases(rng, n_schemas: int, per_schema: int, depth: int = 3, foreign: in
                 except Exception as e:
                     out = ("exc", type(e).__name__)
                 cases.append(dict(fam=fam, t=t, ns=ns, kind="dec", input=d0, out=out))
+                if mixin_top:
+                    d1 = copy.deepcopy(d0)
+                    try:
+                        out2 = ("ok", ns[t.name].from_dict(d1))
+                    except Exception as e:
+                        out2 = ("exc", type(e).__name__)
+                    cases.append(dict(fam=fam, t=t, ns=ns, kind="dec", input=d0, out=out2, entry="mixin"))
     return cases
 
 
